@@ -45,3 +45,8 @@ CASES += [
     dict(id='c14-eq-class-filter-test', prop='C14', file='src/celma/log/filter/detail/log_filter_classes.hpp', expect=None,
          old="   return mClassSelection[ static_cast< size_t>( msg.getClass())];", new="   return mClassSelection.test( static_cast< size_t>( msg.getClass()));"),
 ]
+
+CASES += [
+    dict(id='c14-level-setter-min-tag', prop='C14', file='src/library/log/filter/filters.cpp', expect='R6',
+         old="                 ( detail::IFilter::FilterTypes::level, selected_log_level);", new="                 ( detail::IFilter::FilterTypes::minLevel, selected_log_level);"),
+]
